@@ -187,7 +187,7 @@ def main():
     handlers = {"exp_so3": c02.replay, "exp_se3_gen": c02.replay, "exp_se23_gen": c02.replay,
                 "log_so3": c03.replay, "log_se3": c03.replay, "log_se23": c03.replay,
                 "jac_so3": c05.replay, "jac_se3": c05.replay, "jac_se23": c05.replay,
-                "jac_se3_gen": c05.replay, "jac_se23_gen": c05.replay}
+                "jac_se3_gen": c05.replay, "jac_se23_gen": c05.replay, "exp_se2": c02.replay, "log_se2": c03.replay}
     if "--replay" in sys.argv:
         d = json.load(open(sys.argv[sys.argv.index("--replay") + 1]))
         tv = d["data"]["tv"]
